@@ -40,7 +40,7 @@ def shards(tier, seed):
                                       "params": {"kind": "corpus"}}]
 
 
-def make_system(rng, q, N, exact=False, disparity=False):
+def make_system(rng, q, N, exact=False, disparity=False, correlated=False):
     from scipy.signal import lfilter
     base = rng.standard_normal((q, N))
     kinds = []
@@ -52,8 +52,12 @@ def make_system(rng, q, N, exact=False, disparity=False):
         elif k == "ma":
             base[i] = lfilter([1.0, float(rng.uniform(-0.9, 0.9))], [1.0], base[i])
         base[i] /= np.std(base[i])
-    if q > 1 and rng.random() < 0.6:
+    if q > 1 and (rng.random() < 0.6 or correlated):
         rho = float(rng.uniform(0.2, 0.9))
+        if correlated:
+            # strongly correlated inputs (sensors that mostly see the same disturbance): the
+            # input spectral matrix is ill-conditioned (1e3 .. 1e6) but far from singular
+            rho = float(rng.choice([0.97, 0.99, 0.997]))
         common = rng.standard_normal(N)
         base = np.sqrt(1 - rho) * base + np.sqrt(rho) * common
     if disparity:
@@ -93,14 +97,17 @@ def options(rng, N):
     return kw
 
 
-def one_system(rec, seedt):
+def one_system(rec, seedt, force_correlated=False):
     from speckit import systems, compute_spectrum
     rng = gen.rng_for(*seedt)
     q = int(rng.choice([1, 1, 2, 2, 3, 4]))
     N = int(rng.integers(2000, 10001))
     exact = bool(rng.random() < 0.2)
     disparity = bool(rng.random() < 0.35) and q > 1
-    inputs, y, kinds, coup = make_system(rng, q, N, exact, disparity)
+    correlated = (not exact) and (not disparity) and q >= 3 and bool(int(seedt[-1]) % 2 == 0)
+    if force_correlated:
+        q, exact, disparity, correlated = int(rng.choice([3, 4])), False, False, True
+    inputs, y, kinds, coup = make_system(rng, q, N, exact, disparity, correlated)
     kw = options(rng, N)
     fs = float(rng.choice([1.0, 100.0]))
     # the same samples in the containers / dtypes callers use: integer-valued data held as int
@@ -125,8 +132,8 @@ def one_system(rec, seedt):
         if exact:
             y = sum(float(c_[1]) * np.asarray(v, dtype=np.float64) for c_, v in zip(coup, inputs))
     ref_inputs = [np.asarray(v, dtype=np.float64) for v in inputs]   # same samples as float64
-    desc = {"kind": "system", "form": form, "seed": list(seedt), "q": q, "N": N, "exact": exact,
-            "disparity": disparity, "inputs": kinds, "couplings": coup, "sched": kw["scheduler"],
+    desc = {"kind": "system", "forced": bool(force_correlated), "form": form, "seed": list(seedt), "q": q, "N": N, "exact": exact,
+            "disparity": disparity, "correlated": correlated, "inputs": kinds, "couplings": coup, "sched": kw["scheduler"],
             "order": kw["order"]}
     rec.case(desc, nontrivial=False)
     ry = api.attempt(rec, lambda: compute_spectrum(y, fs, **kw), "output spectrum")
@@ -143,7 +150,9 @@ def one_system(rec, seedt):
         return
     rec.count("systems")
     tag = f"[q={q}, {kw['scheduler']}, order {kw['order']}, couplings {coup}] "
-    use_analytic = q <= 3 or rng.random() < 0.5
+    use_analytic = q <= 3 or correlated or rng.random() < 0.5
+    if correlated:
+        rec.count("correlated_input_systems")
 
     def run(name, fn):
         out = api.attempt(rec, fn, name)
@@ -226,7 +235,7 @@ def one_system(rec, seedt):
                                   f"{exp[j]!r} at f={ry.f[j]:.5g} (coh={rc.coh[j]:.4f})")
     # History: the caller's buffers are refilled in place with a different system and analysed
     # again; the result must be that of the current contents (compared with fresh copies).
-    if form == "float64" and rng.random() < 0.5:
+    if form == "float64" and rng.random() < 0.5 and not force_correlated:
         in2, y2, _, _ = make_system(rng, q, N, exact, disparity)
         for dst, src in zip(inputs, in2):
             dst[:] = src
@@ -254,7 +263,7 @@ def one_system(rec, seedt):
     base = res.get("numeric")
     solver = systems.MISO_numeric_optimal_spectral_analysis
     sname = "numeric"
-    if use_analytic and rng.random() < 0.4 and res.get("analytic") is not None:
+    if use_analytic and (correlated or rng.random() < 0.4) and res.get("analytic") is not None:
         base, solver, sname = res["analytic"], systems.MISO_analytic_optimal_spectral_analysis, "analytic"
     if base is None or q == 1 or exact:
         # for an exact combination both residuals are rounding noise (each already asserted to be
@@ -381,6 +390,8 @@ def run_shard(params, rec):
         return
     for i in range(max(1, params["n"] // 5)):
         collinear_case(rec, [params["seed"], params["shard"], "col", i])
+    for i in range(max(2, params["n"] // 5)):
+        one_system(rec, [params["seed"], params["shard"], "corr", i], force_correlated=True)
     t0 = time.time()
     for i in range(params["n"]):
         if time.time() - t0 > params["budget_s"]:
@@ -392,4 +403,4 @@ def run_shard(params, rec):
 def replay(case, rec):
     if case.get("kind") == "collinear":
         return collinear_case(rec, case["seed"])
-    one_system(rec, case["seed"])
+    one_system(rec, case["seed"], force_correlated=bool(case.get("forced")))
